@@ -8,7 +8,10 @@ From ApolloVerif Require Import Base.Chars Lex.Item Lex.Fun Parse.Outcome Parse.
 
 (* ------------------------------------------------------------------ two tokens of look-ahead *)
 Definition rl_tok_view (t2 : prstoken) (ts : list rg_token) : Prop :=
-  match ts with [] => tok_kind t2 = TkEof | (k, d) :: _ => tok_kind t2 = k /\ tok_data t2 = d end.
+  match ts with
+  | [] => tok_kind t2 = TkEof /\ tok_data t2 = []
+  | (k, d) :: _ => tok_kind t2 = k /\ tok_data t2 = d /\ k <> TkEof /\ rl_tok_ok k d = true
+  end.
 
 Lemma rl_nth_sig0 items : rl_stream items ->
   exists t2, p_nth_significant 0 items = Some t2 /\ rl_tok_view t2 (rl_sig items).
@@ -18,8 +21,8 @@ Proof.
   - assert (He : tkind_eqb k TkEof = false) by (destruct k; try discriminate; reflexivity).
     rewrite He in Hs. destruct Hs as [_ Hr]. cbn [orb]. exact (IH Hr).
   - cbn [orb]. eexists. split; [reflexivity|]. destruct (tkind_eqb k TkEof) eqn:He.
-    + apply tkind_eqb_eq in He. destruct Hs as [-> _]. cbn. exact He.
-    + cbn. auto.
+    + apply tkind_eqb_eq in He. destruct Hs as [-> ->]. cbn. auto.
+    + cbn. destruct Hs as [Hok _]. repeat split; auto. intros ->. discriminate He.
 Qed.
 
 Lemma rl_peek_token_n2 s t : rl_inv s -> ps_cur s = Some t -> tok_kind t <> TkEof ->
@@ -133,7 +136,7 @@ Proof.
   { unfold rl_len_le in Hlen. rewrite Hhead in Hlen. cbn [length] in Hlen. lia. }
   destruct (rl_sig (ps_items s1)) as [|[k2 d2] r'] eqn:Er.
   - (* the field name is the last token *)
-    cbn in Hv2. rewrite Hv2 in EX. cbn [p_when] in EX.
+    cbn in Hv2. destruct Hv2 as [Hv2 _]. rewrite Hv2 in EX. cbn [p_when] in EX.
     assert (Hsim : rl_sim (fun ts => ts = [(TkName, tok_data t)]) ((p_ret tt ;; g_name) ;; g_field_rest ss f) (rg_seq rg_name (rgl_field_rest m))).
     { eapply rl_sim_bind_pre with (Q := rl_len_lt m).
       - apply rl_sim_any. eapply rl_sim_fext; [|apply rl_sim_name]. intros s0. reflexivity.
@@ -142,7 +145,7 @@ Proof.
     apply (rl_post_ext (rg_seq rg_name (rgl_field_rest m))); [rewrite Hhead; reflexivity|].
     eapply (proj2 Hsim s1 _ s2); [|split; assumption|exact Ht1|exact Hhead].
     unfold p_bind at 1. rewrite EX. exact E.
-  - destruct Hv2 as [Hk2 Hd2]. rewrite Hk2 in EX.
+  - destruct Hv2 as (Hk2 & Hd2 & _ & _). rewrite Hk2 in EX.
     destruct (tkind_eqb k2 TkColon) eqn:Hcolon.
     + apply tkind_eqb_eq in Hcolon. rewrite Hcolon in Hk2, Hhead, Er, Hlen', EX. cbn [p_when] in EX.
       assert (Hsim : rl_sim (fun ts => ts = (TkName, tok_data t) :: (TkColon, d2) :: r') ((g_alias ;; g_name) ;; g_field_rest ss f)
@@ -265,13 +268,13 @@ Proof.
     rewrite rg_streq_sym in E.
     destruct (rl_sig (ps_items s)) as [|[k2 d2] r2] eqn:Er.
     + (* `...` is the last token *)
-      cbn in Hv2. rewrite Hv2 in E. cbn [tkind_eqb andb existsb orb] in E.
+      cbn in Hv2. destruct Hv2 as [Hv2 _]. rewrite Hv2 in E. cbn [tkind_eqb andb existsb orb] in E.
       apply bind_ok in E as (? & s3 & E3 & E).
       apply rl_post_dirty; [|rewrite Hhead; destruct m; [exfalso; exact (Hmpos eq_refl)|reflexivity]].
       eapply rl_dirty_then; [eapply rl_err_run; eauto| |].
       * exact (proj2 (post_returns _ _ _ _ (proj2 rl_gen_err) s I _ _ E3)).
       * exact (proj2 (post_returns _ _ _ _ (proj2 (rl_gen_bump SK_SPREAD)) s3 I _ _ E)).
-    + destruct Hv2 as [Hk2 Hd2]. rewrite Hk2, Hd2 in E.
+    + destruct Hv2 as (Hk2 & Hd2 & _ & _). rewrite Hk2, Hd2 in E.
       destruct (tkind_eqb k2 TkName) eqn:Hname.
       * apply tkind_eqb_eq in Hname. subst k2. cbn [andb] in E.
         destruct (rg_streq rg_s_on d2) eqn:Hon; cbn [negb] in E.
